@@ -26,8 +26,8 @@ ASSUMPTIONS = [
     "an unchanged %rewrite unit is absent from the diff by design: the projection law is evaluated modulo such units",
     "order is compared inside %ordered groups only (call_diff_logic concatenates groups)",
 ]
-FLOORS = {"quick": {"diffs_compared": 3000, "moved_entries": 200, "rewrite_units_changed": 50, "text_views_checked": 3000, "self_diffs": 1000, "ignore_case_rulebooks": 400},
-          "thorough": {"diffs_compared": 150000, "moved_entries": 10000, "rewrite_units_changed": 2500, "text_views_checked": 150000, "self_diffs": 50000, "ignore_case_rulebooks": 15000}}
+FLOORS = {"quick": {"diffs_compared": 3000, "moved_entries": 200, "rewrite_units_changed": 50, "text_views_checked": 3000, "self_diffs": 1000, "ignore_case_rulebooks": 400, "acl_diffs_compared": 600, "removals_of_not_deletable_rows": 100},
+          "thorough": {"diffs_compared": 150000, "moved_entries": 10000, "rewrite_units_changed": 2500, "text_views_checked": 150000, "self_diffs": 50000, "ignore_case_rulebooks": 15000, "acl_diffs_compared": 25000, "removals_of_not_deletable_rows": 4000}}
 VENDORS = ["huawei", "h3c", "optixtrans", "cisco", "nexus", "iosxr", "arista", "b4com", "pc", "juniper", "ribbon", "nokia"]
 BRACE = {"juniper", "ribbon", "nokia"}
 
@@ -304,8 +304,64 @@ def check_case(seed, acc, icase=False):
     return w
 
 
+def check_acl_case(seed, acc):
+    """make_diff with an ACL that covers everything: the diff is the ACL-less diff, except that a REMOVED row whose governing
+    ACL rule is not deletable is shown as kept (AFFECTED) with its removed children; ADDED / MOVED rows keep their operation"""
+    from annet.annlib.patching import make_diff, strip_unchanged
+    from annet.annlib.rbparser.acl import compile_acl_text
+    from vf.ref import acl as A
+    vname, rules, old, new = make_case(seed)
+    v, prefix, exitw, hw, fmt = c01.vendor_env(vname)
+    rng = random.Random(seed ^ 0xAC1)
+    level = []
+    for r in rules:
+        if r.pat == "~" or r.ignore or r.pat.startswith(prefix + " "):
+            continue
+        x = rng.random()
+        pat = r.pat
+        level.append(A.AclRule(pat, cant_delete=([True] if x < 0.4 else [False] if x < 0.6 else None)))
+    level.append(A.AclRule("~", glob=True))
+    text = RB.render(rules)
+    atext = A.render(level)
+    po, pn = plain(old), plain(new)
+    w = {"seed": seed, "acl_case": True, "vendor": vname, "rulebook": text, "acl": atext, "old": po, "new": pn}
+    try:
+        rb = c01.compile_rb(text, vname)
+        d = make_diff(old, new, rb, [compile_acl_text(atext, vname)])
+    except Exception as e:
+        acc.violation("C03/exception/%s" % type(e).__name__, "make_diff with an ACL raised", dict(w, error=repr(e)[:300]))
+        return
+    acc.count("acl_diffs_compared")
+    l, g = RB.split_level(rules)
+    al, ag = A.compile_level(level, ideal=False)
+
+    def acl_pass(entries, locals_, globals_):
+        out = []
+        for op, row, ch in entries:
+            ms = A.ranked(row, locals_, globals_, prefix)
+            if not ms:
+                continue
+            rule = ms[0][0]
+            if op == "REMOVED" and rule.cant_delete and all(rule.cant_delete):
+                op = "AFFECTED"
+                acc.count("removals_of_not_deletable_rows")
+            cl, cg = A.children_rules(ms, globals_, "winner")
+            out.append((op, row, acl_pass(ch, cl, cg)))
+        return out
+    exp = RD.mark_unchanged(acl_pass(RD.diff(po, pn, l, g), al, ag))
+    got = norm(d)
+    n, depths = depth_stats(norm(strip_unchanged(d)))
+    acc.case(["acl", vname, text, atext, po, pn], nontrivial=(n >= 2))
+    if RD.canon(exp) != RD.canon(got):
+        acc.violation("C03/acl-diff-differs-from-reference", "with an all-covering ACL the diff is not the plain diff with removals of not-deletable rows shown as kept",
+                      dict(w, expected=RD.canon(RD.strip(exp)), got=RD.canon(RD.strip(got))))
+
+
 def run_shard(spec, acc):
     if spec["mode"] == "replay":
+        if spec["witness"].get("acl_case"):
+            check_acl_case(spec["witness"]["seed"], acc)
+            return
         check_case(spec["witness"]["seed"], acc, icase=bool(spec["witness"].get("icase")))
         return
     tier, k, n = spec["tier"], spec["shard"], spec["nshards"]
@@ -317,3 +373,5 @@ def run_shard(spec, acc):
             acc.sample({k2: w[k2] for k2 in ("vendor", "rulebook", "old", "new", "diff")})
         if j % 5 == 4:
             check_case(rng.randrange(1 << 48), acc, icase=True)
+        if j % 5 == 2:
+            check_acl_case(rng.randrange(1 << 48), acc)
